@@ -28,7 +28,7 @@ def load_known():
             line = line.strip()
             if not line or line.startswith("#"):
                 continue
-            m = re.match(r"finding:\s+property=(\S+)\s+rule=(\S+)\s+key=(\S+)\s*(.*)", line)
+            m = re.match(r'finding:\s+property=(\S+)\s+rule=(\S+)\s+key="([^"]*)"\s*(.*)', line)
             if m:
                 findings.append({"property": m.group(1), "rule": m.group(2), "key": m.group(3), "text": m.group(4)})
                 continue
@@ -102,7 +102,8 @@ class Check:
         self.counts[name] = self.counts.get(name, 0) + n
 
     def set_count(self, name, n):
-        self.counts[name] = n
+        """per-variant instance count: the evidence keeps the maximum over variants"""
+        self.counts[name] = max(self.counts.get(name, 0), n)
 
     def broken(self, msg):
         raise AnalysisBroken(msg)
@@ -221,6 +222,8 @@ def run_check(pid, rule_fn, argv):
     try:
         rule_fn(chk)
         rc = chk.finish()
+    except BrokenPipeError:
+        rc = 2
     except AnalysisBroken as e:
         print("ANALYSIS-BROKEN property=%s: %s" % (pid, e))
         rc = 2
@@ -229,5 +232,8 @@ def run_check(pid, rule_fn, argv):
         traceback.print_exc()
         print("ANALYSIS-BROKEN property=%s: internal error in the checker (see traceback)" % pid)
         rc = 2
-    sys.stdout.flush()
+    try:
+        sys.stdout.flush()
+    except BrokenPipeError:
+        pass
     return rc
